@@ -350,12 +350,42 @@ fn scale(tier: &str, quick: usize, thorough: usize) -> usize {
     }
 }
 
+/// container sources (`P<hex>` = a response PDU, `Q<hex>` = a request PDU) whose decoded `Coils` / `Data`
+/// are then placed in other variants: exact, with surplus data bytes, with trailing bytes behind the PDU,
+/// with set padding bits, empty.  Returns (coil sources, register sources).
+fn src_cases(r: &mut Rng) -> (Vec<String>, Vec<String>) {
+    let mut coils = vec![];
+    let mut regs = vec![];
+    for bc in [0usize, 1, 2, 9, 255] { for fc in [1u8, 2] { for trail in [0usize, 2] {
+        let mut p = vec![fc, bc as u8]; p.extend(r.bytes(bc + trail)); coils.push(format!("P{}", hex_of(&p)));
+    } } }
+    for q in [0usize, 1, 3, 8, 9, 10, 17, 2033, 2040] { for extra in [0usize, 1, 3] { for trail in [0usize, 1, 4] { for dirty in [false, true] {
+        let need = (q + 7) / 8; let bc = need + extra;
+        if bc > 255 || (extra > 0 && trail > 0 && q > 20) { continue; }
+        let mut d = r.bytes(bc);
+        if q % 8 != 0 { if dirty { d[need - 1] |= 0x80; } else { d[need - 1] &= (1u8 << (q % 8)) - 1; } } else if dirty { continue; }
+        let mut p = vec![0x0Fu8, 0x12, 0x34, (q / 256) as u8, (q % 256) as u8, bc as u8]; p.extend(d); p.extend(r.bytes(trail));
+        coils.push(format!("Q{}", hex_of(&p)));
+    } } } }
+    for bc in [0usize, 1, 2, 3, 4, 5, 254, 255] { for fc in [3u8, 4, 0x17] { for trail in [0usize, 1] {
+        let mut p = vec![fc, bc as u8]; p.extend(r.bytes(bc + trail)); regs.push(format!("P{}", hex_of(&p)));
+    } } }
+    for q in [0usize, 1, 2, 3, 126, 127] { for fc in [0x10u8, 0x17] { for trail in [0usize, 1, 3] {
+        let mut p = vec![fc]; if fc == 0x17 { p.extend([0, 9, 0, 2]); }
+        p.extend([0x12, 0x34, 0, q as u8, (2 * q) as u8]); p.extend(r.bytes(2 * q + trail)); regs.push(format!("Q{}", hex_of(&p)));
+    } } }
+    (coils, regs)
+}
+
 pub fn generate(prop: &str, tier: &str, seed: u64, out: &mut impl Write) {
     let mut rng = Rng(seed ^ 0x6D6F646275730000 ^ (prop.bytes().fold(0u64, |a, b| a * 131 + b as u64)));
     let r = &mut rng;
     macro_rules! w { ($($a:tt)*) => { writeln!(out, $($a)*).unwrap() } }
     match prop {
         "C01" => {
+            let (cs, ds) = src_cases(r);
+            for c in &cs { w!("reqenc WMCS 4660 {c} 300 A5"); w!("#@ C01 WMCS 4660 {c}"); }
+            for d in &ds { w!("reqenc WMRS 7 {d} 300 A5"); w!("#@ C01 WMRS 7 {d}"); w!("reqenc RWMS 1 2 3 {d} 300 A5"); w!("#@ C01 RWMS 1 2 3 {d}"); }
             // every unmodelled custom code once
             for c in 0u8..0x80 {
                 if MODELLED.contains(&c) { continue; }
@@ -391,6 +421,9 @@ pub fn generate(prop: &str, tier: &str, seed: u64, out: &mut impl Write) {
                     if f % 16 == 3 { w!("#@ C02 EXC C{f:02X} {k}"); w!("excenc EXC C{f:02X} {k} 2 00"); }
                 }
             }
+            { let (cs, ds) = src_cases(r);
+              for c in &cs { for k in ["RCS", "RDIS"] { w!("rspenc {k} {c} 300 A5"); w!("#@ C02 {k} {c}"); } }
+              for d in &ds { for k in ["RHRS", "RIRS", "RWMS"] { w!("rspenc {k} {d} 300 A5"); w!("#@ C02 {k} {d}"); } } }
             // read-exception-status responses (the one serial-line-only kind the crate encodes)
             for x in 0..=255u32 { w!("rspenc RES {x} 4 A5"); w!("rspdec 07{x:02X}"); w!("rspdec 07{x:02X}5A"); w!("#@ C02 RES {x}"); }
             w!("rspdec 07");
@@ -418,6 +451,10 @@ pub fn generate(prop: &str, tier: &str, seed: u64, out: &mut impl Write) {
             }
         }
         "C03" => {
+            { let (cs, ds) = src_cases(r);
+              for c in &cs { w!("reqenc WMCS 16 {c} 300 A5"); w!("#@ C03 req WMCS 16 {c}"); for k in ["RCS", "RDIS"] { w!("pduenc {k} {c} 300 A5"); w!("#@ C03 rsp {k} {c}"); } }
+              for d in &ds { w!("reqenc WMRS 7 {d} 300 A5"); w!("#@ C03 req WMRS 7 {d}"); w!("reqenc RWMS 1 2 3 {d} 300 A5"); w!("#@ C03 req RWMS 1 2 3 {d}");
+                             for k in ["RHRS", "RIRS", "RWMS"] { w!("pduenc {k} {d} 300 A5"); w!("#@ C03 rsp {k} {d}"); } } }
             for x in [0u32, 1, 0x55, 0x80, 0xFF] { w!("pduenc RES {x} 2 A5"); w!("#@ C03 rsp RES {x}"); w!("specrsp RES {x}"); }
             // a decoded write-multiple-coils request may carry set padding bits: re-encoded, or its coils placed
             // in another PDU, the bytes produced must still have zero padding
@@ -453,6 +490,17 @@ pub fn generate(prop: &str, tier: &str, seed: u64, out: &mut impl Write) {
                     w!("#@ C05 len req {n}"); w!("#@ C05 len rsp {n}");
                 }
             }
+            { let (cs, ds) = src_cases(r);
+              let (enc, tag) = if rtu { ("rtuenc", "C04") } else { ("tcpenc", "C05") };
+              let ids = if rtu { "17" } else { "7 9" };
+              for c in &cs { if c.len() > 500 { continue; }
+                  w!("{enc} req {ids} WMCS 4660 {c} 300 A5"); w!("#@ {tag} req {ids} WMCS 4660 {c}");
+                  for k in ["RCS", "RDIS"] { w!("{enc} rsp {ids} {k} {c} 300 A5"); w!("#@ {tag} rsp {ids} {k} {c}"); } }
+              for d in &ds { if d.len() > 500 { continue; }
+                  w!("{enc} req {ids} WMRS 7 {d} 300 A5"); w!("#@ {tag} req {ids} WMRS 7 {d}");
+                  w!("{enc} req {ids} RWMS 1 2 3 {d} 300 A5"); w!("#@ {tag} req {ids} RWMS 1 2 3 {d}");
+                  for k in ["RHRS", "RIRS", "RWMS"] { w!("{enc} rsp {ids} {k} {d} 300 A5"); w!("#@ {tag} rsp {ids} {k} {d}"); } } }
+            for x in [0u32, 0x5A, 0xFF] { if rtu { w!("rtuenc rsp 17 RES {x} 8 A5"); w!("#@ C04 rsp 17 RES {x}"); } else { w!("tcpenc rsp 7 9 RES {x} 12 A5"); w!("#@ C05 rsp 7 9 RES {x}"); } }
             for bc in [1usize, 3, 5] {
                 // a transplanted decoded `Data` (odd byte count) framed as a write request
                 let mut p = vec![3u8, bc as u8]; p.extend(r.bytes(bc)); let h = hex_of(&p);
@@ -730,6 +778,35 @@ pub fn generate(prop: &str, tier: &str, seed: u64, out: &mut impl Write) {
         "C09x" => {}
 
         "C10" => {
+            // boundary header values (slave / unit id 0 and 255, transaction id 0 and 0xFFFF) and exception-range
+            // PDUs whose second byte is not a defined exception code (they are still two-byte frames)
+            for tr in ["rtu", "tcp"] { for id in [0u8, 1, 247, 255] { for (d, pdu) in [
+                (Dir::Req, vec![0x03u8, 0, 1, 0, 2]), (Dir::Req, vec![0x17, 0, 1, 0, 2, 0, 3, 0, 1, 2, 0xAB, 0xCD]),
+                (Dir::Rsp, vec![0x03, 2, 0xAB, 0xCD]), (Dir::Rsp, vec![0x05, 0, 1, 0xFF, 0]), (Dir::Rsp, vec![0x83, 0x02]), (Dir::Rsp, vec![0x83, 0x07]),
+                (Dir::Rsp, vec![0x81, 0xFF]), (Dir::Rsp, vec![0xAB, 0x00]), (Dir::Rsp, vec![0x07, 0x5A]),
+            ] {
+                let tid = if id == 0 { 0 } else if id == 255 { 0xFFFF } else { 0x0102 };
+                let f = if tr == "rtu" { rtu_frame(id, &pdu) } else { tcp_frame(tid, id, &pdu) };
+                for k in 1..f.len() { w!("{tr}dec {} {}", dname(d), hex_of(&f[..k])); }
+                w!("{tr}scan {} {}", dname(d), hex_of(&f)); w!("{tr}dec {} {}", dname(d), hex_of(&f));
+                w!("#@ C10 {tr} {} {} -", dname(d), hex_of(&f));
+                let mut two = f.clone(); two.extend(&f);
+                w!("#@ C10 {tr} {} {} {}", dname(d), hex_of(&f), hex_of(&f));
+                w!("{tr}dec {} {}", dname(d), hex_of(&two));
+            } } }
+            // frames whose count byte is the smallest / largest possible (empty and full payloads)
+            for tr in ["rtu", "tcp"] { for (d, pdu) in [
+                (Dir::Req, vec![0x0Fu8, 0, 1, 0, 0, 0]), (Dir::Req, vec![0x10, 0, 1, 0, 0, 0]), (Dir::Req, vec![0x17, 0, 1, 0, 2, 0, 3, 0, 0, 0]),
+                (Dir::Rsp, vec![0x01, 0]), (Dir::Rsp, vec![0x03, 0]), (Dir::Rsp, vec![0x17, 0]), (Dir::Rsp, vec![0x0C, 0]), (Dir::Rsp, vec![0x18, 0, 0]),
+            ] {
+                let f = if tr == "rtu" { rtu_frame(0x11, &pdu) } else { tcp_frame(0x0102, 9, &pdu) };
+                for k in 1..=f.len() { w!("{tr}scan {} {}", dname(d), hex_of(&f[..k])); w!("{tr}dec {} {}", dname(d), hex_of(&f[..k])); }
+                for suffix in [vec![], vec![0x00u8], f.clone()] {
+                    let mut ext = f.clone(); ext.extend(&suffix);
+                    w!("{tr}scan {} {}", dname(d), hex_of(&ext));
+                    w!("#@ C10 {tr} {} {} {}", dname(d), hex_of(&f), hex_of(&suffix));
+                }
+            } }
             for _ in 0..scale(tier, 250, 6000) {
                 for tr in ["rtu", "tcp"] {
                     for d in [Dir::Req, Dir::Rsp] {
@@ -803,6 +880,16 @@ pub fn generate(prop: &str, tier: &str, seed: u64, out: &mut impl Write) {
             }
         }
         "C12" => {
+            { let (cs, ds) = src_cases(r);
+              let mut k = 0usize;
+              for c in &cs { k += 1; if c.len() > 120 && k % 4 != 0 { continue; }
+                  w!("#@ C12 req WMCS 4660 {c}"); w!("#@ C12 tcpreq WMCS 4660 {c}"); w!("#@ C12 rsp RCS {c}"); w!("#@ C12 rtursp RDIS {c}");
+                  for l in [0usize, 5, 6, 7, 8, 9, 12, 300] { w!("reqenc WMCS 4660 {c} {l} D7"); w!("rspenc RCS {c} {l} D7"); } }
+              for d in &ds { k += 1; if d.len() > 120 && k % 4 != 0 { continue; }
+                  w!("#@ C12 req WMRS 7 {d}"); w!("#@ C12 rtureq RWMS 1 2 3 {d}"); w!("#@ C12 rsp RHRS {d}"); w!("#@ C12 tcprsp RWMS {d}");
+                  for l in [0usize, 1, 2, 6, 10, 11, 12, 300] { w!("reqenc WMRS 7 {d} {l} D7"); w!("rspenc RIRS {d} {l} D7"); } } }
+            // PDUs at the capacity of the 16-bit MBAP length field
+            for n in [65533usize, 65534, 65535] { w!("#@ C12 tcplen req {n}"); w!("#@ C12 tcplen rsp {n}"); }
             for _ in 0..scale(tier, 500, 10000) {
                 let (m, s) = gen_req(r, false);
                 let pl = req_bytes(&m).len();
